@@ -41,7 +41,7 @@ def make_env(defs):
 
 def out_of(fn, *a, **kw):
     try:
-        r = with_deadline(20, fn, *a, **kw)
+        r = with_deadline(5, fn, *a, **kw)
     except Deadline:
         return {"k": "raised", "e": "NonTermination"}, None
     except RecursionError:
